@@ -28,7 +28,42 @@ def run(spec):
         return xhair.check_condition(spec["name"], "units.c19_harness", spec["func"], spec["func"], spec["post"],
                                      per_condition_timeout=spec["pct"], twin=spec.get("twin", False),
                                      sample=f"crosshair check units.c19_harness.{spec['func']}")
+    if spec["kind"] == "memo":
+        return memo_instances(spec)
     return dispatch_tables(spec)
+
+
+def memo_instances(spec):
+    """Two differently configured instances of one algorithm class with a memoised handler map the same DAG one after
+    the other: each result must be the recursive application of that instance's own handlers (z3 decides the values)."""
+    import ufl
+    from ufl.corealg.map_dag import map_expr_dag
+    from ufl.corealg.multifunction import MultiFunction, memoized_handler
+
+    from checks.common import coef, mesh
+    from vlib import tv
+    from vlib.denote import Env
+
+    class Scale(MultiFunction):
+        def __init__(self, k):
+            MultiFunction.__init__(self)
+            self.k = k
+
+        expr = MultiFunction.reuse_if_untouched
+
+        @memoized_handler
+        def coefficient(self, o):
+            return self.k * o
+
+    dom = mesh("triangle", 2)
+    f, g = coef(dom, (), count=1900), coef(dom, (), count=1901)
+    e = f * g + ufl.sin(f) * f + g / (1 + f * f)
+    res = []
+    for k in (2, 3, 5):
+        out = map_expr_dag(Scale(k), e, compress=spec.get("compress", True))
+        want = ufl.replace(e, {f: k * f, g: k * g}) if False else (k * f) * (k * g) + ufl.sin(k * f) * (k * f) + (k * g) / (1 + (k * f) * (k * f))
+        res.append(tv.compare(f"{spec['name']}/k={k}", want, out, Env(), timeout=60, check_structure=False))
+    return res
 
 
 def handler_sets():
@@ -130,6 +165,8 @@ def specs(tier):
                   task_timeout=400))
     S.append(dict(name="dispatch/MultiFunction", kind="tables", base="mf"))
     S.append(dict(name="dispatch/Transformer", kind="tables", base="tr"))
+    S.append(dict(name="memoized-handler/instances", kind="memo", compress=True))
+    S.append(dict(name="memoized-handler/instances-nocompress", kind="memo", compress=False))
     for b in ("mf", "tr"):
         for d in ("parent_first", "child_first"):
             S.append(dict(name=f"dispatch/{'MultiFunction' if b == 'mf' else 'Transformer'}/derived-{d}", kind="tables", base=b, derived=d))
